@@ -159,6 +159,7 @@ class bptk():
         self.visualizer = visualizer(config=self.config)
         self.abmrunner = HybridRunner(self.scenario_manager_factory) #TODO rename self.abmrunner to self.model_runner if still needed
         self.session_state = None
+        self._lock_guard = threading.Lock() # makes taking the session lock atomic
 
     def train_scenarios(self, scenarios, scenario_managers, episodes=1, agents=[], agent_states=[],
                           agent_properties=[], agent_property_types=[], series_names={}, return_df=False,
@@ -275,6 +276,18 @@ class bptk():
     def unlock(self):
         if self.session_state is not None:
             self.session_state["lock"] = False
+
+    def try_lock(self):
+        """Atomically lock the session if it is not locked yet.
+
+        Returns:
+            True if the lock was taken, False if the session is already locked.
+        """
+        with self._lock_guard:
+            if self.is_locked():
+                return False
+            self.lock()
+            return True
     def is_locked(self):
         if self.session_state is not None:
             if(not "lock" in self.session_state.keys()):
